@@ -8,7 +8,7 @@ UNITS = C01.UNITS
 LEVEL = C01.LEVEL; TECHNIQUE = C01.TECHNIQUE; FUNCTION_PATTERNS = C01.FUNCTION_PATTERNS; VALIDATE_VECTORS = 100
 def validation_queries(tier): return C01.validation_queries(tier)[:2]
 def queries(tier):   # scenarios that reach every policy call site: first slab, large map, large unmap (free and moving realloc), in-place realloc, incl. map failures
-    return C01.select(tier, lambda t: t['lockset'] or t['preempt'] or (t['pol'] in (1, 3) and (t['faults'] or 1 in t['ops'] or 3 in t['ops']) and t['size0'] in (16, 64, 65, 129, 24)))
+    return C01.select(tier, lambda t: t['lockset'] or t['preempt'] or (t['pol'] in (1, 3) and t['faults']))
 LEVEL_TEXT = ('PARTIAL: decided on the enumerated sequential scenarios are (a) the lock-discipline sentence of C05 — Policy::map/unmap/poison are invoked while the calling thread holds none of the pool mutexes, no mutex is '
               'left held when a call returns, no call takes a second pool mutex while holding one (no lock-order deadlock) — and (b) a lock-set discipline on EVERY load/store of the translated pool code: bucket state and the mutable '
               'header of a published slab are only touched under that bucket\'s mutex, the used-page counter only under the tree mutex (an Eraser-style sufficient condition for "no data race on pool state", which is a property of '
